@@ -33,6 +33,30 @@ def _mk():
     return house
 
 
+def mk_val(v):
+    """case value -> python object stored in the share"""
+    import collections
+    if isinstance(v, list):
+        return list(v)
+    if isinstance(v, dict):
+        if "dq" in v:
+            return collections.deque(v["dq"])
+        if "m" in v:
+            items = [(k, x) for k, x in v["m"]]
+            return collections.OrderedDict(items) if v.get("od") else dict(items)
+    return v
+
+
+def un_val(v):
+    """python object found in the share -> canonical result value (deque -> list, dict -> {"m": items})"""
+    import collections
+    if isinstance(v, (list, collections.deque)):
+        return list(v)
+    if isinstance(v, dict):
+        return {"m": [[k, x] for k, x in v.items()]}
+    return v
+
+
 def parse_cell(txt):
     if txt == "":
         return None
@@ -46,6 +70,8 @@ def parse_cell(txt):
         return v
     if isinstance(v, list) and all(isinstance(x, int) and not isinstance(x, bool) for x in v):
         return v
+    if isinstance(v, tuple) and len(v) == 2 and all(isinstance(x, int) and not isinstance(x, bool) for x in v):
+        return {"p": [v[0], v[1]]}        # a (key, value) item of a mapping-valued streak
     return {"raw": txt}
 
 
@@ -89,7 +115,7 @@ def parse_file(text):
             if t != int(t):
                 raise ValueError
             cells = [parse_cell(c) for c in parts[1:]]
-            if any(isinstance(c, dict) for c in cells):
+            if any(isinstance(c, dict) and "raw" in c for c in cells):
                 raise ValueError
             out.append(["R", int(t), cells])
         except ValueError:
@@ -110,7 +136,7 @@ def run_case(case, workdir):
     shares = []
     for i, sh in enumerate(case["shares"]):
         s = store.create("c22.s%d" % i)
-        kv = [("f%d" % k, list(v) if isinstance(v, list) else v) for k, v in sh["data"]]
+        kv = [("f%d" % k, mk_val(v)) for k, v in sh["data"]]
         if sh.get("stamped"):
             s.update(kv)
         else:
@@ -142,8 +168,12 @@ def run_case(case, workdir):
             shares[op[1]].push(odict(("f%d" % k, v) for k, v in e["m"]) if "m" in e else e["o"])
         elif o == "append":
             v = shares[op[1]].get("f%d" % op[2])
-            if isinstance(v, list):     # (the model's Append is a no-op on a scalar / missing field)
+            if isinstance(v, (list, collections.deque)):     # (the model's Append is a no-op otherwise)
                 v.append(op[3])
+        elif o == "put":
+            v = shares[op[1]].get("f%d" % op[2])
+            if isinstance(v, dict):         # (the model's Put is a no-op on anything but a mapping)
+                v[op[3]] = op[4]
         elif o == "run":
             logger.runner.send(globaling.RUN)
         elif o == "start":
@@ -159,7 +189,7 @@ def run_case(case, workdir):
         data = []
         for k in s.keys():
             v = s[k]
-            data.append([int(k[1:]), list(v) if isinstance(v, list) else v])
+            data.append([int(k[1:]), un_val(v)])
         deck = []
         for e in s.deck:
             if isinstance(e, collections.abc.Mapping):
